@@ -170,6 +170,12 @@ def check_radar_stream(rng, tier, report):
     txt = r.raw.decode(errors="ignore")
     report("radar/disconnect-exits", st == 0 and "TCP connection aborted" in txt, {"status": st, "tail": txt[-200:]})
     r.kill(); f.stop()
+    # the same when the server goes away abortively (connection reset instead of an orderly end of stream)
+    r, f, snap, st = run_radar_feed([("send", b"".join(lines[:10])), ("sleep", 1.0), ("abort",)], wait=1.5)
+    st = r.wait_exit()
+    txt = r.raw.decode(errors="ignore")
+    report("radar/reset-exits", st == 0 and "TCP connection aborted" in txt, {"status": st, "tail": txt[-200:]})
+    r.kill(); f.stop()
     # disconnect with retry: reconnects and keeps the tracked aircraft
     half = len(lines) // 2
     script = [("send", b"".join(lines[:half])), ("sleep", 1.5), ("close",), ("sleep", 0.5), ("accept",), ("send", b"".join(lines[half:])), ("sleep", 2.0)]
@@ -178,6 +184,13 @@ def check_radar_stream(rng, tier, report):
     r.send(b"\x1bOR"); r.pump(0.6)
     got = airplanes_rows(r.screen.text())
     report("radar/retry-keeps-aircraft", st is None and got == want and f.accepted == 2, {"status": st, "rows": got, "expected": want, "accepted": f.accepted})
+    r.send(b"q"); r.pump(0.8); r.kill(); f.stop()
+    # ... also after a connection reset
+    script = [("send", b"".join(lines[:half])), ("sleep", 1.5), ("abort",), ("sleep", 0.5), ("accept",), ("send", b"".join(lines[half:])), ("sleep", 2.0)]
+    r, f, snap, st = run_radar_feed(script, args=("--retry-tcp",), wait=0.8)
+    r.send(b"\x1bOR"); r.pump(0.6)
+    got = airplanes_rows(r.screen.text())
+    report("radar/retry-after-reset", st is None and got == want and f.accepted == 2, {"status": st, "rows": got, "expected": want, "accepted": f.accepted})
     r.send(b"q"); r.pump(0.8); r.kill(); f.stop()
     # the connection drops in the middle of a line: the fragment is not a complete line and must not swallow the first
     # complete line of the next connection (every complete line exactly once, across reconnects)
